@@ -341,6 +341,13 @@ func c05Mutants(rng *vRand, raw []byte, cidLen int, other []byte, budget int) (m
 	if other != nil {
 		add("splice-other-session", append([]byte(nil), other...))
 	}
+	// well-formed UNPROTECTED records (epoch 0, fresh sequence numbers) on the established connection:
+	// alerts (fatal, close_notify, warning) and an ACK must change nothing
+	for i, body := range [][]byte{{2, 80}, {1, 0}, {1, 90}, {2, 0}} {
+		m := []byte{21, 254, 253, 0, 0, 0, 0, 0, 0x20, 0, byte(rng.intn(250)), byte(i), 0, 2}
+		add(fmt.Sprintf("plain-alert:%d:%d", body[0], body[1]), append(m, body...))
+	}
+	add("plain-ack", []byte{26, 254, 253, 0, 0, 0, 0, 0, 0x21, 0, byte(rng.intn(250)), 0, 0, 2, 0, 0})
 	// sample down to the budget, keeping order
 	if budget > 0 && len(muts) > budget {
 		keep := map[int]bool{}
